@@ -612,6 +612,10 @@ func (p *c11) Run(i int) (res fw.Result) {
 }
 
 func (p *c11) Rule() string {
+	return p.ruleBase() + " " + "Round 12: macro names templateName, TemplateName, name, Name, keys, String, _self (names of attributes of _self and of methods) in the names family."
+}
+
+func (p *c11) ruleBase() string {
 	return "exhaustive: parameters 0..4 x arguments 0..6 x call form {_self.m, alias.m, from-import m, from-import m as n, from-import m under the name of a registered function} x use of the result {printed, assigned and printed twice, concatenated, passed to a recording function and a filter, inside a loop, inside a set-capture and a filter section, twice in a row and concatenated with itself, in a loop and again after it, through ONE import statement executed three times with a computed library name, defined / imported and called inside a template entered through embed and include} (1750 cases, each compared with the reference model AND with the _self form of the same coordinates; a third of the cases spelled with a line break between any two tokens, a third without any dispensable blank); unknown macros (call on an import alias, with and without arguments, inside a loop; from-import of an unknown name, with alias; import of a missing template) must fail; terminating recursion (linear, two inner calls, mutual; depth 0..4; defined in the template or in a library that imports itself) where every level prints its parameters again after the inner call returned; random: 2..5 macros split between the template and a library, bodies calling earlier macros of the same home (acyclic), 1..4 calls in random forms and uses. Every macro body prints each parameter and calls a recording function, so binding by position, null for missing, dropping of surplus arguments and Context.Name() (defining template) are all visible. Non-trivial: all enumerated coordinates are distinct by construction; random cases by their call list."
 }
 
